@@ -152,10 +152,12 @@ pub fn parse_actions(
     let refs: Vec<&dyn Fn(RIdx<u32>, &dyn NonStreamingLexer<LT>, Span, std::vec::Drain<AStackType<DefaultLexeme<u32>, PTree>>, u32) -> PTree> =
         boxed.iter().map(|b| &**b as _).collect();
     let t0 = std::time::Instant::now();
-    let b = RTParserBuilder::<u32, LT>::new(g, st).recoverer(rk);
+    // the two setters are independent: either order must give the same parser (alternate by input length)
+    let b0 = RTParserBuilder::<u32, LT>::new(g, st);
     let (tree, errs) = match cost {
-        Some(c) => b.term_costs(c).parse_actions(&lexer, &refs, 7u32),
-        None => b.parse_actions(&lexer, &refs, 7u32),
+        Some(c) if toks.len() % 2 == 1 => b0.term_costs(c).recoverer(rk).parse_actions(&lexer, &refs, 7u32),
+        Some(c) => b0.recoverer(rk).term_costs(c).parse_actions(&lexer, &refs, 7u32),
+        None => b0.recoverer(rk).parse_actions(&lexer, &refs, 7u32),
     };
     let wall_ms = t0.elapsed().as_millis();
     let errors = errs
@@ -188,8 +190,17 @@ pub fn parse_actions(
 
 /// the generic-tree entry point (`parse_map`), as (rule, children) shape text
 pub fn parse_generic_shape(g: &YaccGrammar<u32>, st: &StateTable<u32>, toks: &[u32], rk: RecoveryKind) -> Option<String> {
+    parse_generic_shape_costs(g, st, toks, rk, None)
+}
+
+pub fn parse_generic_shape_costs(g: &YaccGrammar<u32>, st: &StateTable<u32>, toks: &[u32], rk: RecoveryKind, cost: Option<&dyn Fn(TIdx<u32>) -> u8>) -> Option<String> {
     let lexer = VecLexer::new(toks);
-    let (t, _) = RTParserBuilder::<u32, LT>::new(g, st).recoverer(rk).parse_map(
+    let b = RTParserBuilder::<u32, LT>::new(g, st).recoverer(rk);
+    let b = match cost {
+        Some(c) => b.term_costs(c),
+        None => b,
+    };
+    let (t, _) = b.parse_map(
         &lexer,
         &|l: DefaultLexeme<u32>| format!("L {} {}", l.tok_id(), if l.faulty() { l.span().start() + 1_000_000 } else { l.span().start() / STRIDE }),
         &|r: RIdx<u32>, kids: Vec<String>| format!("R {} {} {}", usize::from(r), kids.len(), kids.join(" ")).trim().to_string(),
@@ -201,12 +212,22 @@ pub fn parse_generic_shape(g: &YaccGrammar<u32>, st: &StateTable<u32>, toks: &[u
 /// builds, in the format of `parse_generic_shape`
 #[allow(deprecated)]
 pub fn parse_action_generictree_shape(g: &YaccGrammar<u32>, st: &StateTable<u32>, toks: &[u32], rk: RecoveryKind) -> Option<String> {
+    parse_action_generictree_shape_costs(g, st, toks, rk, None)
+}
+
+#[allow(deprecated)]
+pub fn parse_action_generictree_shape_costs(g: &YaccGrammar<u32>, st: &StateTable<u32>, toks: &[u32], rk: RecoveryKind, cost: Option<&dyn Fn(TIdx<u32>) -> u8>) -> Option<String> {
     use lrpar::Node;
     let lexer = VecLexer::new(toks);
     type F<'a> = &'a dyn Fn(RIdx<u32>, &dyn NonStreamingLexer<LT>, Span, std::vec::Drain<AStackType<DefaultLexeme<u32>, Node<DefaultLexeme<u32>, u32>>>, ()) -> Node<DefaultLexeme<u32>, u32>;
     let f: F = &lrpar::action_generictree::<u32, LT>;
     let refs: Vec<F> = g.iter_pidxs().map(|_| f).collect();
-    let (t, _) = RTParserBuilder::<u32, LT>::new(g, st).recoverer(rk).parse_actions(&lexer, &refs, ());
+    let b = RTParserBuilder::<u32, LT>::new(g, st).recoverer(rk);
+    let b = match cost {
+        Some(c) => b.term_costs(c),
+        None => b,
+    };
+    let (t, _) = b.parse_actions(&lexer, &refs, ());
     fn shape(n: &Node<DefaultLexeme<u32>, u32>) -> String {
         match n {
             Node::Term { lexeme } => format!("L {} {}", lexeme.tok_id(), if lexeme.faulty() { lexeme.span().start() + 1_000_000 } else { lexeme.span().start() / STRIDE }),
